@@ -163,3 +163,7 @@ extend("C17", "ParamTransform with duplicate keys and plain arrays; the numpy ro
 extend("C18", "coordinate-editing operations; copies of views (pickle, deepcopy, .copy()) incl. make_trainable/set through the copy; copies used after the original was garbage-collected; every initial state saved and loaded in a fresh interpreter; originals built from scratch (never from a deep copy); groups sharing one index array.")
 extend("C19", "six initial states (heterogeneous pre-assembled network, uniform cell on which set_ncomp is accepted, network with recordings/stimuli/clamps of membrane and synaptic states in non-ascending order); frame invariants I8 (deletions through views, incl. alignment of surviving data rows), I10 (delete_channel through a view), I11 (connect), I12 (groups after set_ncomp).")
 extend("C20", "numpy.random.rand/uniform/randint/permutation owned by the oracle; a 12-cell network with populations around cell index 8 and structured 4x4 matrices.")
+extend("C05", "gradients w.r.t. the samples of a data-fed stimulus, several of them exactly zero.")
+extend("C17", "a float32/float16 call on an instance followed by float64 (the instance must behave like a fresh one).")
+extend("C18", "coordinate edits that recompute the centres in .nodes, applied to copy and original and compared.")
+extend("C20", "column-major and transposed-view connectivity matrices.")
